@@ -22,9 +22,11 @@ class C09(Prop):
     def corpus(self):
         f11 = {'policy': 'all', 'mode': 'join', 'members': [{'react': 'spawn', 'daemon': False}, {'react': 'reraise', 'daemon': False}],
                'actions': [['start'], ['tick'], ['tick'], ['tick'], ['finish', 1, ['exc']]] + [['tick']] * 12}
+        f12b = {'policy': 'all', 'mode': 'aexit_exc', 'members': [{'react': 'slow', 'daemon': False}],
+                'actions': [['start'], ['tick'], ['cancelJ'], ['tick'], ['tick']]}
         f12 = {'policy': 'all', 'mode': 'join', 'members': [{'react': 'slow', 'daemon': False}, {'react': 'reraise', 'daemon': False}],
                'actions': [['start'], ['tick'], ['tick'], ['tick'], ['finish', 1, ['exc']]] + [['tick']] * 6 + [['cancelJ']] + [['tick']] * 6}
-        return [f11, f12]
+        return [f11, f12, f12b]
 
     def generate(self, rng, n, tier):
         for _ in range(n):
@@ -42,11 +44,13 @@ class C09(Prop):
 
     def oracle(self, case, obs):
         je = obs['join_end']
-        if je is None or not je['entered']:
+        if je is None or not (je['entered'] or je.get('exiting')):
             return None
         if je['undone']:
             if je['joiner_cancelled'] and not je['joined']:
-                return 'the joining task was cancelled while join waited for cancelled members: join ended with members still running'
+                where = 'join' if je['entered'] else 'cancel_remaining() in __aexit__'
+                return (f'the joining task was cancelled while {where} waited for cancelled members: '
+                        'it ended with members still running')
             return 'join finished although a member of the group is still running'
         if je['joined'] and obs['late_add'] == 'added':
             return 'a task could be added after join had finished'
@@ -54,7 +58,7 @@ class C09(Prop):
 
     def classify(self, case, obs, clause):
         je = obs['join_end'] or {}
-        if 'joining task was cancelled while join waited' in clause:
+        if 'joining task was cancelled while' in clause:
             return 'F12'
         if 'still running' in clause and any(int(t) >= 1000 for t in map(str, je.get('undone', [])) if str(t).isdigit()):
             return 'F11'
